@@ -618,7 +618,7 @@ func constDependencyCycle(defs []*Def) bool {
 
 // structLiteralReentry: linking struct S can reach (through the types of its fields, its
 // defaults, the constants those mention, …) a value that contains a literal of S itself.
-// Such a literal is then evaluated against a half-linked S — the shape of D41 (whether the
+// Such a literal is then evaluated against a half-linked S — the shape of D50 (whether the
 // program is accepted depends on the link order) and of D40.
 func structLiteralReentry(defs []*Def) bool {
 	typeRefs := func(t *TExpr, out *[]*Def) {
@@ -680,7 +680,7 @@ func structLiteralReentry(defs []*Def) bool {
 
 func newGen(r *rng.R, cfg genCfg) *gen { return &gen{r: r, cfg: cfg} }
 
-// program generates a program that avoids the D10, D4/D6/D40 and D41 shapes.
+// program generates a program that avoids the D10, D4/D6/D40 and D50 shapes.
 func program(r *rng.R, cfg genCfg) (*Prog, *gen) {
 	for {
 		g := newGen(r.Fork(), cfg)
